@@ -12,6 +12,8 @@ import (
 
 func init() {
 	register(&PropertyCheck{ID: "C11", Level: "proof", Run: checkC11, Canaries: []Canary{
+		{Name: "rf7-printer-type-given-an-address", Rule: "R11.1", Where: "(dumper).val", Edits: []Edit{{"auth.go", "\tfmt.Fprintf(w, \"AuthData: %q\\n\", string(p.AuthData()))\n\tfmt.Fprintf(w, \"AuthMethod: %q\\n\", p.AuthMethod())\n\tfmt.Fprintf(w, \"ReasonCode: %v\\n\", p.ReasonCode())\n\tfmt.Fprintf(w, \"ReasonString: %q\\n\", p.ReasonString())", "\td := dumper{w}\n\td.quoted(\"AuthData\", string(p.AuthData()))\n\td.quoted(\"AuthMethod\", p.AuthMethod())\n\td.val(\"ReasonCode\", p.ReasonCode())\n\td.quoted(\"ReasonString\", p.ReasonString())"}, {"connack.go", "\tfmt.Fprintf(w, \"AssignedClientID: %q\\n\", p.AssignedClientID())\n\tfmt.Fprintf(w, \"AuthData: %q\\n\", string(p.AuthData()))\n\tfmt.Fprintf(w, \"AuthMethod: %q\\n\", p.AuthMethod())\n\tfmt.Fprintf(w, \"MaxPacketSize: %v\\n\", p.MaxPacketSize())\n\tfmt.Fprintf(w, \"MaxQoS: %v\\n\", p.MaxQoS())\n\tfmt.Fprintf(w, \"ReasonCode: %v\\n\", p.ReasonCode())\n\tfmt.Fprintf(w, \"ReasonString: %q\\n\", p.ReasonString())\n\tfmt.Fprintf(w, \"ReceiveMax: %v\\n\", p.ReceiveMax())\n\tfmt.Fprintf(w, \"ResponseInformation: %q\\n\", p.ResponseInformation())\n\tfmt.Fprintf(w, \"RetainAvailable: %v\\n\", p.RetainAvailable())\n\tfmt.Fprintf(w, \"ServerKeepAlive: %v\\n\", p.ServerKeepAlive())\n\tfmt.Fprintf(w, \"ServerReference: %q\\n\", p.ServerReference())\n\tfmt.Fprintf(w, \"SessionExpiryInterval: %v\\n\", p.SessionExpiryInterval())\n\tfmt.Fprintf(w, \"SessionPresent: %v\\n\", p.SessionPresent())\n\tfmt.Fprintf(w, \"SharedSubAvailable: %v\\n\", p.SharedSubAvailable())\n\tfmt.Fprintf(w, \"SubIdentifiersAvailable: %v\\n\", p.SubIdentifiersAvailable())\n\tfmt.Fprintf(w, \"TopicAliasMax: %v\\n\", p.TopicAliasMax())\n\tfmt.Fprintf(w, \"WildcardSubAvailable: %v\\n\", p.WildcardSubAvailable())", "\td := dumper{w}\n\td.quoted(\"AssignedClientID\", p.AssignedClientID())\n\td.quoted(\"AuthData\", string(p.AuthData()))\n\td.quoted(\"AuthMethod\", p.AuthMethod())\n\td.val(\"MaxPacketSize\", p.MaxPacketSize())\n\td.val(\"MaxQoS\", p.MaxQoS())\n\td.val(\"ReasonCode\", p.ReasonCode())\n\td.quoted(\"ReasonString\", p.ReasonString())\n\td.val(\"ReceiveMax\", p.ReceiveMax())\n\td.quoted(\"ResponseInformation\", p.ResponseInformation())\n\td.val(\"RetainAvailable\", p.RetainAvailable())\n\td.val(\"ServerKeepAlive\", p.ServerKeepAlive())\n\td.quoted(\"ServerReference\", p.ServerReference())\n\td.val(\"SessionExpiryInterval\", p.SessionExpiryInterval())\n\td.val(\"SessionPresent\", p.SessionPresent())\n\td.val(\"SharedSubAvailable\", p.SharedSubAvailable())\n\td.val(\"SubIdentifiersAvailable\", p.SubIdentifiersAvailable())\n\td.val(\"TopicAliasMax\", p.TopicAliasMax())\n\td.val(\"WildcardSubAvailable\", p.WildcardSubAvailable())"}, {"connect.go", "\tfmt.Fprintf(w, \"AuthData: %v\\n\", p.AuthData())\n\tfmt.Fprintf(w, \"AuthMethod: %v\\n\", p.AuthMethod())\n\tfmt.Fprintf(w, \"CleanStart: %v\\n\", p.CleanStart())\n\tfmt.Fprintf(w, \"ClientID: %v\\n\", p.ClientID())\n\tfmt.Fprintf(w, \"KeepAlive: %v\\n\", p.KeepAlive())\n\tfmt.Fprintf(w, \"MaxPacketSize: %v\\n\", p.MaxPacketSize())\n\tfmt.Fprintf(w, \"Password: %q\\n\", stars(len(p.Password())))\n\tfmt.Fprintf(w, \"ProtocolName: %v\\n\", p.ProtocolName())\n\tfmt.Fprintf(w, \"ProtocolVersion: %v\\n\", p.ProtocolVersion())\n\tfmt.Fprintf(w, \"ReceiveMax: %v\\n\", p.ReceiveMax())\n\tfmt.Fprintf(w, \"RequestProblemInfo: %v\\n\", p.RequestProblemInfo())\n\tfmt.Fprintf(w, \"RequestResponseInfo: %v\\n\", p.RequestResponseInfo())\n\tfmt.Fprintf(w, \"SessionExpiryInterval: %v\\n\", p.SessionExpiryInterval())\n\tfmt.Fprintf(w, \"TopicAliasMax: %v\\n\", p.TopicAliasMax())\n\tfmt.Fprintf(w, \"Username: %v\\n\", stars(len(p.Username())))", "\td := dumper{w}\n\td.val(\"AuthData\", p.AuthData())\n\td.val(\"AuthMethod\", p.AuthMethod())\n\td.val(\"Flags\", &p.flags)\n\td.val(\"CleanStart\", p.CleanStart())\n\td.val(\"ClientID\", p.ClientID())\n\td.val(\"KeepAlive\", p.KeepAlive())\n\td.val(\"MaxPacketSize\", p.MaxPacketSize())\n\td.quoted(\"Password\", stars(len(p.Password())))\n\td.val(\"ProtocolName\", p.ProtocolName())\n\td.val(\"ProtocolVersion\", p.ProtocolVersion())\n\td.val(\"ReceiveMax\", p.ReceiveMax())\n\td.val(\"RequestProblemInfo\", p.RequestProblemInfo())\n\td.val(\"RequestResponseInfo\", p.RequestResponseInfo())\n\td.val(\"SessionExpiryInterval\", p.SessionExpiryInterval())\n\td.val(\"TopicAliasMax\", p.TopicAliasMax())\n\td.val(\"Username\", stars(len(p.Username())))"}, {"disconnect.go", "\tfmt.Fprintf(w, \"ReasonCode: %v\\n\", p.ReasonCode())\n\tfmt.Fprintf(w, \"ReasonString: %q\\n\", p.ReasonString())\n\tfmt.Fprintf(w, \"ServerReference: %q\\n\", p.ServerReference())\n\tfmt.Fprintf(w, \"SessionExpiryInterval: %v\\n\", p.SessionExpiryInterval())", "\td := dumper{w}\n\td.val(\"ReasonCode\", p.ReasonCode())\n\td.quoted(\"ReasonString\", p.ReasonString())\n\td.quoted(\"ServerReference\", p.ServerReference())\n\td.val(\"SessionExpiryInterval\", p.SessionExpiryInterval())"}, {"packet.go", "\t}\n}\n", "\t}\n}\n\n// dumper writes named fields as lines to the underlying writer, each\n// line is written with one call to Write. Errors are ignored.\ntype dumper struct {\n\tw io.Writer\n}\n\n// val writes the field using the default format of v.\nfunc (d dumper) val(name string, v interface{}) {\n\tfmt.Fprintf(d.w, \"%s: %v\\n\", name, v)\n}\n\n// quoted writes the field as a double quoted string.\nfunc (d dumper) quoted(name string, v string) {\n\tfmt.Fprintf(d.w, \"%s: %q\\n\", name, v)\n}\n"}}},
+		{Name: "rf7-dump-through-a-small-printer-type", Silent: true, Edits: []Edit{{"auth.go", "\tfmt.Fprintf(w, \"AuthData: %q\\n\", string(p.AuthData()))\n\tfmt.Fprintf(w, \"AuthMethod: %q\\n\", p.AuthMethod())\n\tfmt.Fprintf(w, \"ReasonCode: %v\\n\", p.ReasonCode())\n\tfmt.Fprintf(w, \"ReasonString: %q\\n\", p.ReasonString())", "\td := dumper{w}\n\td.quoted(\"AuthData\", string(p.AuthData()))\n\td.quoted(\"AuthMethod\", p.AuthMethod())\n\td.val(\"ReasonCode\", p.ReasonCode())\n\td.quoted(\"ReasonString\", p.ReasonString())"}, {"connack.go", "\tfmt.Fprintf(w, \"AssignedClientID: %q\\n\", p.AssignedClientID())\n\tfmt.Fprintf(w, \"AuthData: %q\\n\", string(p.AuthData()))\n\tfmt.Fprintf(w, \"AuthMethod: %q\\n\", p.AuthMethod())\n\tfmt.Fprintf(w, \"MaxPacketSize: %v\\n\", p.MaxPacketSize())\n\tfmt.Fprintf(w, \"MaxQoS: %v\\n\", p.MaxQoS())\n\tfmt.Fprintf(w, \"ReasonCode: %v\\n\", p.ReasonCode())\n\tfmt.Fprintf(w, \"ReasonString: %q\\n\", p.ReasonString())\n\tfmt.Fprintf(w, \"ReceiveMax: %v\\n\", p.ReceiveMax())\n\tfmt.Fprintf(w, \"ResponseInformation: %q\\n\", p.ResponseInformation())\n\tfmt.Fprintf(w, \"RetainAvailable: %v\\n\", p.RetainAvailable())\n\tfmt.Fprintf(w, \"ServerKeepAlive: %v\\n\", p.ServerKeepAlive())\n\tfmt.Fprintf(w, \"ServerReference: %q\\n\", p.ServerReference())\n\tfmt.Fprintf(w, \"SessionExpiryInterval: %v\\n\", p.SessionExpiryInterval())\n\tfmt.Fprintf(w, \"SessionPresent: %v\\n\", p.SessionPresent())\n\tfmt.Fprintf(w, \"SharedSubAvailable: %v\\n\", p.SharedSubAvailable())\n\tfmt.Fprintf(w, \"SubIdentifiersAvailable: %v\\n\", p.SubIdentifiersAvailable())\n\tfmt.Fprintf(w, \"TopicAliasMax: %v\\n\", p.TopicAliasMax())\n\tfmt.Fprintf(w, \"WildcardSubAvailable: %v\\n\", p.WildcardSubAvailable())", "\td := dumper{w}\n\td.quoted(\"AssignedClientID\", p.AssignedClientID())\n\td.quoted(\"AuthData\", string(p.AuthData()))\n\td.quoted(\"AuthMethod\", p.AuthMethod())\n\td.val(\"MaxPacketSize\", p.MaxPacketSize())\n\td.val(\"MaxQoS\", p.MaxQoS())\n\td.val(\"ReasonCode\", p.ReasonCode())\n\td.quoted(\"ReasonString\", p.ReasonString())\n\td.val(\"ReceiveMax\", p.ReceiveMax())\n\td.quoted(\"ResponseInformation\", p.ResponseInformation())\n\td.val(\"RetainAvailable\", p.RetainAvailable())\n\td.val(\"ServerKeepAlive\", p.ServerKeepAlive())\n\td.quoted(\"ServerReference\", p.ServerReference())\n\td.val(\"SessionExpiryInterval\", p.SessionExpiryInterval())\n\td.val(\"SessionPresent\", p.SessionPresent())\n\td.val(\"SharedSubAvailable\", p.SharedSubAvailable())\n\td.val(\"SubIdentifiersAvailable\", p.SubIdentifiersAvailable())\n\td.val(\"TopicAliasMax\", p.TopicAliasMax())\n\td.val(\"WildcardSubAvailable\", p.WildcardSubAvailable())"}, {"connect.go", "\tfmt.Fprintf(w, \"AuthData: %v\\n\", p.AuthData())\n\tfmt.Fprintf(w, \"AuthMethod: %v\\n\", p.AuthMethod())\n\tfmt.Fprintf(w, \"CleanStart: %v\\n\", p.CleanStart())\n\tfmt.Fprintf(w, \"ClientID: %v\\n\", p.ClientID())\n\tfmt.Fprintf(w, \"KeepAlive: %v\\n\", p.KeepAlive())\n\tfmt.Fprintf(w, \"MaxPacketSize: %v\\n\", p.MaxPacketSize())\n\tfmt.Fprintf(w, \"Password: %q\\n\", stars(len(p.Password())))\n\tfmt.Fprintf(w, \"ProtocolName: %v\\n\", p.ProtocolName())\n\tfmt.Fprintf(w, \"ProtocolVersion: %v\\n\", p.ProtocolVersion())\n\tfmt.Fprintf(w, \"ReceiveMax: %v\\n\", p.ReceiveMax())\n\tfmt.Fprintf(w, \"RequestProblemInfo: %v\\n\", p.RequestProblemInfo())\n\tfmt.Fprintf(w, \"RequestResponseInfo: %v\\n\", p.RequestResponseInfo())\n\tfmt.Fprintf(w, \"SessionExpiryInterval: %v\\n\", p.SessionExpiryInterval())\n\tfmt.Fprintf(w, \"TopicAliasMax: %v\\n\", p.TopicAliasMax())\n\tfmt.Fprintf(w, \"Username: %v\\n\", stars(len(p.Username())))", "\td := dumper{w}\n\td.val(\"AuthData\", p.AuthData())\n\td.val(\"AuthMethod\", p.AuthMethod())\n\td.val(\"CleanStart\", p.CleanStart())\n\td.val(\"ClientID\", p.ClientID())\n\td.val(\"KeepAlive\", p.KeepAlive())\n\td.val(\"MaxPacketSize\", p.MaxPacketSize())\n\td.quoted(\"Password\", stars(len(p.Password())))\n\td.val(\"ProtocolName\", p.ProtocolName())\n\td.val(\"ProtocolVersion\", p.ProtocolVersion())\n\td.val(\"ReceiveMax\", p.ReceiveMax())\n\td.val(\"RequestProblemInfo\", p.RequestProblemInfo())\n\td.val(\"RequestResponseInfo\", p.RequestResponseInfo())\n\td.val(\"SessionExpiryInterval\", p.SessionExpiryInterval())\n\td.val(\"TopicAliasMax\", p.TopicAliasMax())\n\td.val(\"Username\", stars(len(p.Username())))"}, {"disconnect.go", "\tfmt.Fprintf(w, \"ReasonCode: %v\\n\", p.ReasonCode())\n\tfmt.Fprintf(w, \"ReasonString: %q\\n\", p.ReasonString())\n\tfmt.Fprintf(w, \"ServerReference: %q\\n\", p.ServerReference())\n\tfmt.Fprintf(w, \"SessionExpiryInterval: %v\\n\", p.SessionExpiryInterval())", "\td := dumper{w}\n\td.val(\"ReasonCode\", p.ReasonCode())\n\td.quoted(\"ReasonString\", p.ReasonString())\n\td.quoted(\"ServerReference\", p.ServerReference())\n\td.val(\"SessionExpiryInterval\", p.SessionExpiryInterval())"}, {"packet.go", "\t}\n}\n", "\t}\n}\n\n// dumper writes named fields as lines to the underlying writer, each\n// line is written with one call to Write. Errors are ignored.\ntype dumper struct {\n\tw io.Writer\n}\n\n// val writes the field using the default format of v.\nfunc (d dumper) val(name string, v interface{}) {\n\tfmt.Fprintf(d.w, \"%s: %v\\n\", name, v)\n}\n\n// quoted writes the field as a double quoted string.\nfunc (d dumper) quoted(name string, v string) {\n\tfmt.Fprintf(d.w, \"%s: %q\\n\", name, v)\n}\n"}}},
 		{Name: "will-props-in-map-order", Rule: "R11.1", Where: "(*Connect).payload$1", Edits: []Edit{{"connect.go",
 			"\t\t\ti += p.willDelayInterval.fillProp(b, i, WillDelayInterval)\n\t\t\ti += p.will.payloadFormat.fillProp(b, i, PayloadFormatIndicator)\n\t\t\ti += p.will.messageExpiryInterval.fillProp(b, i, MessageExpiryInterval)\n\t\t\ti += p.will.contentType.fillProp(b, i, ContentType)\n\t\t\ti += p.will.responseTopic.fillProp(b, i, ResponseTopic)\n\t\t\ti += p.will.correlationData.fillProp(b, i, CorrelationData)\n",
 			"\t\t\tfor id, v := range p.willPropertyMap() {\n\t\t\t\ti += v().fillProp(b, i, id)\n\t\t\t}\n"}}},
